@@ -250,6 +250,16 @@ func (m *modeler) mangleOne(sp ManglerSpec, f *mfield, top bool) ([]*mfield, err
 		// the copy is a field of its own under the alias name, not an
 		// embedded field
 		cp.anon = false
+		// source-specific tags (every tag of the mangler after the first)
+		// that have no alias of their own are not inherited by the copy:
+		// its name then derives from the aliased generic tag
+		if len(sp.Tags) > 1 {
+			for _, tag := range sp.Tags[1:] {
+				if _, ok := aliasVals[tag]; !ok {
+					delete(cp.tags, tag)
+				}
+			}
+		}
 		for tag, av := range aliasVals {
 			cp.tags[tag] = tagVal{val: namePart(av.val), known: av.known, words: av.words, wk: av.wk}
 		}
